@@ -14,6 +14,7 @@ package main
 
 import (
 	"bufio"
+	"context"
 	"crypto/ecdsa"
 	"crypto/x509"
 	"encoding/json"
@@ -27,6 +28,7 @@ import (
 	"os"
 	"strings"
 	"sync"
+	"syscall"
 	"time"
 
 	"github.com/go-jose/go-jose/v4"
@@ -44,29 +46,200 @@ import (
 	"github.com/dadrus/heimdall/internal/watcher"
 )
 
-type c19Script struct {
-	mu     sync.Mutex
+// c19Reply is what the loopback server answers with. `damage` says what goes wrong below HTTP:
+//
+//	""               nothing: status, content type, body, Content-Length as net/http computes it
+//	"cl-short"       Content-Length announces the whole body, `cut` bytes of it arrive, then the connection is closed
+//	"chunked-short"  chunked transfer encoding, `cut` bytes arrive (in two chunks), the terminating chunk never does
+//	"cl-long"        Content-Length announces `cut` bytes, the whole body is sent (the client sees the first `cut`)
+//	"reset"          the whole response is sent, but the client's connection fails with ECONNRESET after the headers
+//	                 and `cut` bytes of the body have been read (injected below net/http's transport, see c19FaultConn)
+type c19Reply struct {
 	status int
 	ctype  string
 	body   []byte
+	damage string
+	cut    int
+}
+
+type c19Script struct {
+	mu    sync.Mutex
+	dflt  c19Reply
+	paths map[string]c19Reply
+	addr  string
+}
+
+// set installs the answers of the next requests; dfltPath is the path the default answer is meant for (only needed
+// for the damage "reset", which is injected on the client's side of the connection carrying that request)
+func (s *c19Script) set(dflt c19Reply, dfltPath string, paths map[string]c19Reply) {
+	s.mu.Lock()
+	s.dflt, s.paths = dflt, paths
+	s.mu.Unlock()
+
+	c19Faults.Range(func(k, _ any) bool {
+		c19Faults.Delete(k)
+
+		return true
+	})
+
+	arm := func(path string, r c19Reply) {
+		if r.damage == "reset" {
+			cut := min(max(r.cut, 0), len(r.body))
+			head := r.head(fmt.Sprintf("Content-Length: %d\r\n", len(r.body)))
+			c19Faults.Store(s.addr+path, int64(len(head)+cut))
+		}
+	}
+
+	arm(dfltPath, dflt)
+
+	for path, r := range paths {
+		arm(path, r)
+	}
+}
+
+func (r c19Reply) head(extra string) string {
+	ctype := ""
+	if r.ctype != "" {
+		ctype = "Content-Type: " + r.ctype + "\r\n"
+	}
+
+	return fmt.Sprintf("HTTP/1.1 %d %s\r\n%s%sConnection: close\r\n\r\n", r.status, http.StatusText(r.status), ctype, extra)
 }
 
 func (s *c19Script) ServeHTTP(rw http.ResponseWriter, req *http.Request) {
 	io.Copy(io.Discard, req.Body) //nolint:errcheck
 
 	s.mu.Lock()
-	status, ctype, body := s.status, s.ctype, s.body
+	reply, ok := s.paths[req.URL.Path]
+	if !ok {
+		reply = s.dflt
+	}
 	s.mu.Unlock()
 
-	if ctype != "" {
-		rw.Header().Set("Content-Type", ctype)
+	cut := min(max(reply.cut, 0), len(reply.body))
+
+	switch reply.damage {
+	case "cl-short":
+		head := reply.head(fmt.Sprintf("Content-Length: %d\r\n", len(reply.body)))
+		c19RawReply(rw, append([]byte(head), reply.body[:cut]...), false)
+	case "chunked-short":
+		raw := []byte(reply.head("Transfer-Encoding: chunked\r\n"))
+
+		for _, part := range [][]byte{reply.body[:cut/2], reply.body[cut/2 : cut]} {
+			if len(part) != 0 {
+				raw = append(raw, fmt.Sprintf("%x\r\n", len(part))...)
+				raw = append(raw, part...)
+				raw = append(raw, "\r\n"...)
+			}
+		}
+
+		c19RawReply(rw, raw, false)
+	case "cl-long":
+		head := reply.head(fmt.Sprintf("Content-Length: %d\r\n", cut))
+		c19RawReply(rw, append([]byte(head), reply.body...), false)
+	case "reset":
+		// the connection this request came over fails on the client's side (see c19Script.set)
+		head := reply.head(fmt.Sprintf("Content-Length: %d\r\n", len(reply.body)))
+		c19RawReply(rw, append([]byte(head), reply.body...), false)
+	default:
+		if reply.ctype != "" {
+			rw.Header().Set("Content-Type", reply.ctype)
+		}
+
+		// the server closes the connection, so that the sockets left in TIME-WAIT do not occupy ephemeral ports
+		rw.Header().Set("Connection", "close")
+
+		rw.WriteHeader(reply.status)
+		rw.Write(reply.body) //nolint:errcheck
+	}
+}
+
+// c19Faults: "server address + request path" -> number of response bytes after which a connection carrying such a
+// request is reset. http.DefaultTransport (which every endpoint of heimdall uses) dials through the function
+// installed by c19InstallDialer.
+var (
+	c19Faults     sync.Map
+	c19DialerOnce sync.Once
+)
+
+type c19FaultConn struct {
+	net.Conn
+	addr string
+
+	mu     sync.Mutex
+	key    string
+	read   int64
+	broken bool
+}
+
+func (c *c19FaultConn) Write(p []byte) (int, error) {
+	c.mu.Lock()
+	if c.key == "" {
+		if fields := strings.Fields(string(p[:min(len(p), 512)])); len(fields) >= 2 {
+			path, _, _ := strings.Cut(fields[1], "?")
+			c.key = c.addr + path
+		}
+	}
+	c.mu.Unlock()
+
+	return c.Conn.Write(p)
+}
+
+// Read hands on what arrives until the number of bytes of the fault registered for the request of this connection
+// has been reached; what arrives beyond is dropped and the connection fails the way a reset connection does
+func (c *c19FaultConn) Read(p []byte) (int, error) {
+	reset := &net.OpError{Op: "read", Net: "tcp", Addr: c.RemoteAddr(), Err: syscall.ECONNRESET}
+
+	c.mu.Lock()
+	broken := c.broken
+	c.mu.Unlock()
+
+	if broken {
+		return 0, reset
 	}
 
-	// the server closes the connection, so that the sockets left in TIME-WAIT do not occupy ephemeral ports
-	rw.Header().Set("Connection", "close")
+	n, err := c.Conn.Read(p)
 
-	rw.WriteHeader(status)
-	rw.Write(body) //nolint:errcheck
+	c.mu.Lock()
+	defer c.mu.Unlock()
+
+	if v, ok := c19Faults.Load(c.key); ok && c.key != "" {
+		limit := v.(int64) //nolint:forcetypeassert
+		if c.read+int64(n) >= limit {
+			n = int(max(limit-c.read, 0))
+			c.read += int64(n)
+			c.broken = true
+
+			if n == 0 {
+				return 0, reset
+			}
+
+			return n, nil
+		}
+	}
+
+	c.read += int64(n)
+
+	return n, err
+}
+
+func c19InstallDialer() {
+	c19DialerOnce.Do(func() {
+		tr, ok := http.DefaultTransport.(*http.Transport)
+		if !ok {
+			return
+		}
+
+		base := tr.DialContext
+		tr.DialContext = func(ctx context.Context, network, addr string) (net.Conn, error) {
+			conn, err := base(ctx, network, addr)
+			if err != nil {
+				return nil, err
+			}
+
+			return &c19FaultConn{Conn: conn, addr: addr}, nil
+		}
+	})
 }
 
 type c19RemoteEnv struct {
@@ -144,6 +317,28 @@ mechanisms:
         assertions:
           issuers: [verif]
         cache_ttl: 0s
+    - id: jwtmeta
+      type: jwt
+      config:
+        metadata_endpoint:
+          url: BASE/meta
+          disable_issuer_identifier_verification: true
+          http_cache:
+            enabled: false
+        assertions:
+          issuers: [verif]
+        cache_ttl: 0s
+    - id: intrometa
+      type: oauth2_introspection
+      config:
+        metadata_endpoint:
+          url: BASE/meta
+          disable_issuer_identifier_verification: true
+          http_cache:
+            enabled: false
+        assertions:
+          issuers: [verif]
+        cache_ttl: 0s
     - id: idinfo
       type: generic
       config:
@@ -176,6 +371,13 @@ mechanisms:
   finalizers:
     - id: noop
       type: noop
+    - id: cc
+      type: oauth2_client_credentials
+      config:
+        token_url: BASE/token
+        client_id: verif
+        client_secret: secret
+        cache_ttl: 0s
 `
 
 func c19LatinBytes(s string) []byte {
@@ -189,13 +391,17 @@ func c19LatinBytes(s string) []byte {
 
 func c19SetupRemote() {
 	env := &c19Remote
-	env.script = &c19Script{status: http.StatusOK}
+	env.script = &c19Script{dflt: c19Reply{status: http.StatusOK}}
 	ln, err := c19Listen()
 	if err != nil {
 		env.err = err
 
 		return
 	}
+
+	env.script.addr = ln.Addr().String()
+
+	c19InstallDialer()
 
 	env.srv = &httptest.Server{Listener: ln, Config: &http.Server{Handler: env.script}} //nolint:gosec
 	env.srv.Start()
@@ -232,7 +438,31 @@ func c19SetupRemote() {
 	env.mf, env.err = mechanisms.NewMechanismFactory(conf, zerolog.Nop(), &watcher.NoopWatcher{}, nil, nil)
 }
 
-// c19RemoteOp: {"mech", "token"?, "status", "ctype", "body"} ; "material": true asks for the valid token and key set
+// c19MechPath: the path of the document a mechanism fetches (for the two-stage mechanisms: the second one)
+var c19MechPath = map[string]string{
+	"jwt": "/jwks", "intro": "/introspect", "idinfo": "/idinfo", "authz": "/authz", "ctx": "/ctx",
+	"jwtmeta": "/jwks", "intrometa": "/introspect", "cc": "/token",
+}
+
+func c19ReplyOf(c map[string]any, base string) c19Reply {
+	status := getInt(c, "status")
+	if status == 0 {
+		status = http.StatusOK
+	}
+
+	return c19Reply{
+		status: status, ctype: getStr(c, "ctype"),
+		body:   c19LatinBytes(strings.ReplaceAll(getStr(c, "body"), "$BASE", base)),
+		damage: getStr(c, "damage"), cut: getInt(c, "cut"),
+	}
+}
+
+// c19RemoteOp: {"mech", "token"?, "status", "ctype", "body", "damage"?, "cut"?, "path"?, "paths"?: {path: reply},
+// "cuts"?: [from, to, step]}; "material": true asks for the valid token and key set.
+// The answer of the case is served under "path" (default: the path of the document the mechanism fetches), "paths"
+// are the other documents of a fetch in two stages (metadata document, then key set / introspection); "$BASE" in a
+// body stands for the address of the loopback server. With "cuts" the case is run once per value of "cut" in the
+// range (to = -1: up to the length of the body) and answers with the list of outcomes.
 func c19RemoteOp(c map[string]any) (any, error) {
 	if getBool(c, "material") {
 		return c19TokenMaterial(getStr(c, "key_pem"))
@@ -245,25 +475,75 @@ func c19RemoteOp(c map[string]any) (any, error) {
 		return nil, errors.New("loaders: remote environment: " + env.err.Error())
 	}
 
-	body := getStr(c, "body")
-	token := getStr(c, "token")
+	mech := getStr(c, "mech")
+	reply := c19ReplyOf(c, env.srv.URL)
+	path := getStr(c, "path")
 
-	env.script.mu.Lock()
-	env.script.status, env.script.ctype, env.script.body = getInt(c, "status"), getStr(c, "ctype"), c19LatinBytes(body)
-	env.script.mu.Unlock()
+	if path == "" {
+		path = c19MechPath[mech]
+	}
 
+	paths := map[string]c19Reply{}
+	for p, r := range obj(c["paths"]) {
+		paths[p] = c19ReplyOf(obj(r), env.srv.URL)
+	}
+
+	if cuts := getInts(c, "cuts"); len(cuts) == 3 {
+		if cuts[1] < 0 {
+			cuts[1] = len(reply.body) + 1
+		}
+
+		all := []string{}
+
+		for cut := cuts[0]; cut < cuts[1]; cut += max(cuts[2], 1) {
+			reply.cut = cut
+			paths[path] = reply
+			env.script.set(c19Reply{status: http.StatusNotFound}, "", paths)
+
+			res, err := c19RemoteOnce1(env, mech, getStr(c, "token"))
+			if err != nil {
+				return nil, err
+			}
+
+			cls, _ := res["cls"].(string)
+			if cls == "panic" {
+				cls = fmt.Sprintf("panic: %v", res["detail"])
+			}
+
+			all = append(all, cls)
+		}
+
+		return map[string]any{"cls": all, "len": len(reply.body)}, nil
+	}
+
+	if len(paths) == 0 {
+		env.script.set(reply, path, nil)
+	} else {
+		paths[path] = reply
+		env.script.set(c19Reply{status: http.StatusNotFound}, "", paths)
+	}
+
+	res, err := c19RemoteOnce1(env, mech, getStr(c, "token"))
+	if err != nil {
+		return nil, err
+	}
+
+	return res, nil
+}
+
+// c19RemoteOnce1 executes the mechanism once against what the loopback server has been told to answer
+func c19RemoteOnce1(env *c19RemoteEnv, mech, token string) (map[string]any, error) {
 	req := httptest.NewRequest(http.MethodGet, "http://heimdall.test/some/path?x=1", nil)
 	req.Header.Set("Authorization", "Bearer "+token)
 
 	ctx := requestcontext.New(req)
 	sub := &subject.Subject{ID: "alice", Attributes: map[string]any{"a": "b"}}
-	mech := getStr(c, "mech")
 
 	var id string
 
 	cls, detail := c19Guard(func() error {
 		switch mech {
-		case "jwt", "intro", "idinfo":
+		case "jwt", "intro", "idinfo", "jwtmeta", "intrometa":
 			a, err := env.mf.CreateAuthenticator("1alpha4", mech, nil)
 			if err != nil {
 				return fmt.Errorf("harness: %w", err)
@@ -284,6 +564,13 @@ func c19RemoteOp(c map[string]any) (any, error) {
 			return a.Execute(ctx, sub)
 		case "ctx":
 			a, err := env.mf.CreateContextualizer("1alpha4", mech, nil)
+			if err != nil {
+				return fmt.Errorf("harness: %w", err)
+			}
+
+			return a.Execute(ctx, sub)
+		case "cc":
+			a, err := env.mf.CreateFinalizer("1alpha4", mech, nil)
 			if err != nil {
 				return fmt.Errorf("harness: %w", err)
 			}
